@@ -259,12 +259,19 @@ impl Machine {
 
     /// `wire_blocks` (plain memory store only): see `Machine::pw`
     pub fn new_mode_wire(cloud: bool, backup: bool, anchors: bool, wire_blocks: bool) -> Machine {
+        Self::new_mode_store(cloud, backup, anchors, wire_blocks, false)
+    }
+
+    /// `redb`: the node persists through KVVPersister<RedbKVVStore> (see World::new_redb)
+    pub fn new_mode_store(cloud: bool, backup: bool, anchors: bool, wire_blocks: bool, redb: bool) -> Machine {
         let mut cfg = WorldCfg::default_testnet();
         cfg.policy = policy_for_union();
         let vf: Arc<dyn ValidatorFactory> = Arc::new(SimpleValidatorFactory::new_with_policy(cfg.policy.clone()));
-        let pw = if wire_blocks && !cloud && !backup { Some(ProtoWorld::new(cfg.clone(), 6, Negotiation::SignerCap)) } else { None };
+        let pw = if wire_blocks && !cloud && !backup && !redb { Some(ProtoWorld::new(cfg.clone(), 6, Negotiation::SignerCap)) } else { None };
         let mut w = if let Some(pw) = pw.as_ref() {
             World::from_proto(pw)
+        } else if redb {
+            World::new_redb(cfg, vf)
         } else if backup {
             World::new_backup(cfg, vf)
         } else if cloud {
